@@ -181,6 +181,8 @@ class NexusFitter(object):
         self._fixed_pars.pop(name, None)
 
     def limit_parameter(self, name, limits):
+        if name not in self._fit_par_names:
+            raise ValueError("Cannot limit parameter: Unknown fit parameter: %r!" % (name,))
         self._minimizer.limit(name, limits)
         self._limited_pars.update({name: limits})
 
